@@ -470,6 +470,11 @@ pub fn do_swap(
                 }
                 if v == Slip::Either { ctx.probe("slippage_in_rounding_band"); }
             }
+            if let PType::Stable { amp } = &s.cfg.ptype {
+                if amount >= 1 {
+                    stable2::check_swap_executed(s, ctx, *amp, &before, &after, side, amount);
+                }
+            }
             ctx.state_of(&obs_key(&after));
             global_invariants(s, ctx, &before, &after, true, opname);
             others_untouched(ctx, "C14", &before, &after, &[actor, recv], false, opname);
@@ -554,8 +559,11 @@ pub fn apply(s: &mut Pool2, step: &Step, ctx: &mut Ctx) {
                 }
             }
         }
-        Op::Provide { amounts, slippage, receiver } => {
+        Op::Provide { amounts, slippage, receiver, rev } => {
+            s.rev_next.set(*rev);
+            if *rev { ctx.probe("provide_assets_listed_in_reverse_order"); }
             do_provide(s, ctx, actor, *amounts, slippage, *receiver, step.fault, "provide");
+            s.rev_next.set(false);
         }
         Op::DepositWithdraw { amounts } => {
             let lp0 = s.lp_bal(who);
